@@ -105,7 +105,7 @@ def c01():
         "props_file": "Props/C01.v",
         "theorems": ["C01_partition", "C01_every_step", "C01_failed_fit", "C01_nonvacuous",
                      "C01_labels", "C01_labels_partition", "C01_refine_labels", "C01_labels_nonvacuous"],
-        "suites": [suite_hist.suite_hist_api, suite_hist.suite_exhaustive],
+        "suites": [suite_hist.suite_hist_api, suite_hist.suite_exhaustive, suite_hist.suite_boundary],
         "search": suite_hist.search_hist("C01"),
         "replay": suite_hist.replay_hist("C01"),
         "level": "proof",
@@ -166,7 +166,7 @@ def c09():
         "theorems": ["C09_recluster", "C09_refine", "C09_fit", "C09_blocks_are_clusters", "C09_units",
                      "C09_multiround_coarsens", "C09_multiround_stay_together", "C09_round_lists_are_files"],
         "model_files": ["Model/Obs.v", "Model/Multiround.v", "Gen/GMr.v", "Proofs/GenTieMr.v"],
-        "suites": [suite_hist.suite_hist_api, suite_mr.suite_mr_files],
+        "suites": [suite_hist.suite_hist_api, suite_hist.suite_boundary, suite_mr.suite_mr_files],
         "search": search,
         "replay": replay,
         "level": "proof",
